@@ -195,6 +195,18 @@ SEEDS = {
               "scalar NurbsFunc with non-constant weights, as_vector() and everything built on it"),
     "C08-5": ("C08", "MLMatrix._matvec (2/3 levels) returns a per-object output buffer that the next product overwrites",
               "format='mlb' (vector-valued form, 1D/2D), two products with the same operator while the first result is still held"),
+    "C03-5": ("C03", "HSpace.ravel_indices flattens multi-indices with the per-level dof counts in reversed axis order",
+              "anisotropic level spaces (different numbers of dofs per direction) in dim >= 2"),
+    "C05-5": ("C05", "coeffs_to_levelwise_funcs treats an explicit truncate=False like 'not given' (truncate or self.truncate)",
+              "THB space (hs.truncate=True) evaluated with an explicit truncate=False (HSplineFunc / grid_eval of HB coefficients)"),
+    "C06-5": ("C06", "quotient rule drops the parametric-derivative flag for the numerator",
+              "parametric derivative (Dx(..., parametric=True)) of a quotient whose numerator depends on the position, non-identity geometry"),
+    "C09-5": ("C09", "inner_products takes the number of Gauss nodes from the last knot vector only",
+              "dim >= 2 and a last knot vector of lower degree than another axis, e.g. p=(4,1)"),
+    "C10-5": ("C10", "RestrictedLinearSystem.restrict_matrix swaps the row and column selection operators",
+              "elim_rows given and different (as a set) from the constrained dof indices"),
+    "C11-5": ("C11", "local_mg_step 'exact' smoother computes the residual from the local block only",
+              "local multigrid with smoother='exact' and a non-zero iterate outside the smoothing set (second level / second cycle)"),
 }
 
 
